@@ -84,6 +84,7 @@ def check(ctx):
     vlib.translate(ctx, [("status_writes", "StatusWrites.lean")])
     vlib.prove(ctx, ["KrillModel.Props.C19"])
     found = False
+    reported_before = len(ctx.violations)
     if vlib.build_harness(ctx, [HARNESS]):
         n, length = (24, 12) if ctx.tier == "quick" else (720, 22)
         with concurrent.futures.ThreadPoolExecutor(max_workers=2) as ex:
@@ -98,6 +99,8 @@ def check(ctx):
             ctx.failed_obligations.append("corpus-did-not-run")
     else:
         ctx.failed_obligations.append("harness-build")
+    # a recorded finding is not a failing input for a *new* break of an obligation
+    found = len(ctx.violations) > reported_before
     vlib.obligations_broken(ctx, found)
     ctx.assumptions += [
         "error responses are compared by label, never by message; time stamps are inputs of the model (only equalities between them are used)",
